@@ -76,5 +76,21 @@ drop an idea that turns out to fail an existing test and think of another. When 
 (`git checkout -- . && git clean -fdq`) and reply with a six-line summary (one line per change). Do not write anything outside
 `{base}.wt` and `{base}.out`.
 """
+    if os.environ.get('AVOID'):
+        # AVOID=<letters>: append the one-line titles of earlier rounds' changes (the agents' own notes.md, nothing about
+        # the checks) as ideas not to be repeated - by far the most productive prompt variant (wave r: 21 of 41 missed at first)
+        import re, glob
+        titles=[]
+        for dd in sorted(glob.glob('/verif/seeded/%s-[%s]*' % (p, os.environ['AVOID']))):
+            n=os.path.join(dd,'notes.md')
+            if os.path.exists(n):
+                t=open(n).readline().strip().lstrip('# ').strip()
+                titles.append(re.sub(r'^\d+\s*[-\u2014:.]\s*','',t)[:140])
+        seen=set(); out=[]
+        for t in titles:
+            k=re.sub(r'[^a-z]','',t.lower())[:25]
+            if k in seen: continue
+            seen.add(k); out.append(t)
+        txt+="\n## Ideas already used in earlier rounds of this study - do NOT repeat them or close variants\n\n"+"\n".join("* "+t for t in out[-45:])+"\n\nFind mechanisms that are NOT on this list: other functions, other clauses of the property, other kinds of state, rarer combinations of options, inputs and call sequences (other public entry points of the same objects, the order of otherwise independent calls, what a caller may do with a value it was handed, unusual but legal text layouts).\n\nKeep each of your own messages short: work through tool calls.\n"
     open(base+'.prompt.md','w').write(txt)
     print(base+'.prompt.md')
